@@ -16,6 +16,9 @@ pub struct Env<'a> {
     /// at most this many stacks are kept per node and kind (the largest ones by byte size first,
     /// then the ones with most elements)
     pub cap: usize,
+    /// false: a pk_h can be satisfied (signature + key) but not dissatisfied (the key behind
+    /// the hash is only known together with a signature)
+    pub pkh_dissat: bool,
 }
 
 pub struct SD {
@@ -82,11 +85,21 @@ pub fn canon(n: &Node, env: &Env) -> Option<SD> {
         False => SD { sat: vec![], dis: vec![vec![]] },
         PkK(k) => {
             let kb = key_bytes(k, env.ctx).ok()?;
-            SD { sat: vec![vec![(env.sig)(&kb)?]], dis: vec![vec![empty]] }
+            let sat = match (env.sig)(&kb) {
+                Some(sg) => vec![vec![sg]],
+                None if !env.pkh_dissat => vec![],
+                None => return None,
+            };
+            SD { sat, dis: vec![vec![empty]] }
         }
         PkH(k) => {
             let kb = key_bytes(k, env.ctx).ok()?;
-            SD { sat: vec![vec![(env.sig)(&kb)?, kb.clone()]], dis: vec![vec![empty, kb]] }
+            let sat = match (env.sig)(&kb) {
+                Some(sg) => vec![vec![sg, kb.clone()]],
+                None if !env.pkh_dissat => vec![],
+                None => return None,
+            };
+            SD { sat, dis: if env.pkh_dissat { vec![vec![empty, kb]] } else { vec![] } }
         }
         RawPkH(_) => return None,
         After(_) | Older(_) => SD { sat: vec![vec![]], dis: vec![] },
@@ -174,6 +187,11 @@ pub fn canon(n: &Node, env: &Env) -> Option<SD> {
             let nk = keys.len();
             let mut subsets: Vec<Vec<usize>> = vec![(0..*k).collect(), (nk - k..nk).collect()];
             subsets.push((0..nk).step_by(2).chain((1..nk).step_by(2)).take(*k).collect::<Vec<_>>());
+            if !env.pkh_dissat {
+                // holdings mode: only keys with a signature
+                let held: Vec<usize> = (0..nk).filter(|i| (env.sig)(&keys[*i]).is_some()).collect();
+                subsets = if held.len() >= *k { vec![held[..*k].to_vec(), held[held.len() - k..].to_vec()] } else { vec![] };
+            }
             for mut sub in subsets {
                 sub.sort();
                 sub.dedup();
@@ -192,7 +210,11 @@ pub fn canon(n: &Node, env: &Env) -> Option<SD> {
             let keys = multi_keys_in_script_order(n, env.ctx).ok()?;
             let nk = keys.len();
             let mut sat = Vec::new();
-            let subsets: Vec<Vec<usize>> = vec![(0..*k).collect(), (nk - k..nk).collect()];
+            let mut subsets: Vec<Vec<usize>> = vec![(0..*k).collect(), (nk - k..nk).collect()];
+            if !env.pkh_dissat {
+                let held: Vec<usize> = (0..nk).filter(|i| (env.sig)(&keys[*i]).is_some()).collect();
+                subsets = if held.len() >= *k { vec![held[..*k].to_vec(), held[held.len() - k..].to_vec()] } else { vec![] };
+            }
             for sub in subsets {
                 // key 1 is checked first: its element is on top
                 let mut s: Stack = Vec::new();
